@@ -176,6 +176,12 @@ func (p *Peer) SendCheckpoint(index types.ChainIndex, n *consensus.Network, time
 			err = errors.New("checkpoint has wrong index")
 		} else if r.Block.V2.Commitment != r.State.Commitment(r.Block.MinerPayouts[0].Address, r.Block.Transactions, r.Block.V2Transactions()) {
 			err = errors.New("checkpoint has wrong commitment")
+		} else if verr := consensus.ValidateOrphan(r.State, r.Block); verr != nil {
+			// neither the ID nor the commitment covers the value of the miner
+			// payout (or the height field): the block is applied to the
+			// supplied state without further validation, so check here what
+			// can be checked without a supplement
+			err = fmt.Errorf("checkpoint block is invalid: %w", verr)
 		}
 	}
 	return r.State, r.Block, err
